@@ -303,16 +303,18 @@ impl ConnectionState {
             // Server ack for client-initiated consumer cancel.
             AMQPFrame::Method(n, AMQPClass::Basic(AmqpBasic::CancelOk(cancel_ok))) => {
                 let slot = slot_get_mut(inner, n)?;
-                let consumer = slot.consumers.remove(&cancel_ok.consumer_tag);
+                // The consumer's terminal message goes out before the reply that lets the
+                // cancelling call return: once it has returned, the consumer (and with it the
+                // receiving end of this queue) may be dropped at any moment.
+                if let Some(tx) = slot.consumers.remove(&cancel_ok.consumer_tag) {
+                    send(&tx, ConsumerMessage::ClientCancelled)?;
+                }
                 send(
                     &slot.tx,
                     Ok(ChannelMessage::Method(AMQPClass::Basic(
                         AmqpBasic::CancelOk(cancel_ok),
                     ))),
                 )?;
-                if let Some(tx) = consumer {
-                    send(&tx, ConsumerMessage::ClientCancelled)?;
-                }
             }
             // Server beginning delivery of content to a consumer.
             AMQPFrame::Method(n, AMQPClass::Basic(AmqpBasic::Deliver(deliver))) => {
